@@ -1,11 +1,11 @@
 SPECIFICATION Spec
 CONSTANTS
-  Contacts = {"c1"}
-  Kinds = {"good", "bad"}
-  OpKinds = {"en", "dis", "rs", "enq", "blk", "unb", "sent"}
-  MaxOps = 4
+  Contacts = {"c1", "c2"}
+  Kinds = {"good"}
+  OpKinds = {"enq", "sent", "blk"}
+  MaxOps = 3
   MaxSeed = 2
-  MaxLk = 3
+  MaxLk = 4
   MaxGen = 2
   WithRefused = FALSE
   ExitCancelsAny = TRUE
